@@ -898,7 +898,17 @@ func (v *Verifier) appendModel(s *State, sl, n *Term, srcAt func(i *Term) *Term,
 		res = Ite(Eq(n, IntLit(0)), sl, res)
 		s.heaps[name] = Ite(Eq(n, IntLit(0)), h, s.heaps[name])
 	}
-	return v.name(s, "appr", res)
+	r := v.name(s, "appr", res)
+	// the length of the result is len(s)+n on every branch: known as an equality so that
+	// byte-string windows of the result are keyed by it (see State.normKey)
+	if r != res && !r.IsLit && len(r.Args) == 0 {
+		if s.eqs2 == nil {
+			s.eqs2 = map[string]*Term{}
+		}
+		s.eqs2[SLen(r).String()] = newLen
+		s.pc = append(s.pc, Eq(SLen(r), newLen))
+	}
+	return r
 }
 
 func zeroOfSort(es string) *Term {
